@@ -57,7 +57,7 @@ func runC13fifo(run *mc.Run) int {
 	var samples []any
 	lat := map[string]float64{}
 	for _, which := range []string{"syslog-ingester", "auditlog-ingester"} {
-		for _, state := range []string{"waiting-for-writer", "idle-open-pipe", "partial-record-buffered", "after-some-records", "idle-after-slow-handoff", "idle-after-the-writer-was-replaced"} {
+		for _, state := range []string{"waiting-for-writer", "idle-open-pipe", "partial-record-buffered", "after-some-records", "idle-after-slow-handoff", "idle-after-the-writer-was-replaced", "blocked-handing-over-downstream"} {
 			n++
 			name := which + "/" + state
 			path := filepath.Join(dir, fmt.Sprintf("c13-%d", n))
@@ -70,7 +70,7 @@ func runC13fifo(run *mc.Run) int {
 			out := &sink{}
 			auditCh := make(chan string, 100)
 			logins := make(chan common.RemoteUserLogin, 100)
-			if state == "idle-after-slow-handoff" {
+			if state == "idle-after-slow-handoff" || state == "blocked-handing-over-downstream" {
 				// downstream accepts nothing for a while (back-pressure), then drains: afterwards the worker is
 				// idle on an open pipe again and must still stop on cancellation
 				auditCh = make(chan string)
@@ -132,6 +132,15 @@ func runC13fifo(run *mc.Run) int {
 							time.Sleep(time.Millisecond)
 						}
 					}
+				case "blocked-handing-over-downstream":
+					// downstream never takes anything: the worker is parked inside its callback (login hand-off to an
+					// unready correlator / record hand-off into a full channel) when the cancellation comes, and the
+					// writer stays connected and silent afterwards
+					_, _ = w.WriteString("77 Accepted password for a from 1.2.3.4 port 22 ssh2\n")
+					for until := time.Now().Add(2 * time.Second); time.Now().Before(until) && (fionread(w) > 0 || (which == "syslog-ingester" && out.count() < 1)); {
+						time.Sleep(time.Millisecond)
+					}
+					time.Sleep(20 * time.Millisecond)
 				case "after-some-records":
 					_, _ = w.WriteString("77 Failed password for a from 1.2.3.4 port 22 ssh2\n77 Failed password for b from 1.2.3.4 port 22 ssh2\n")
 					for fionread(w) > 0 || delivered() < 2 {
@@ -175,7 +184,7 @@ func runC13fifo(run *mc.Run) int {
 		}
 	}
 	cov := mc.Coverage{Level: "fault_enumeration", Evaluations: n, Distinct: n, Exhaustive: true, Samples: samples,
-		Rule:  "cancellation injected into SyslogIngester.Ingest and AuditLogIngester.Ingest on real FIFOs in each blocking state: waiting for a writer to open the pipe, blocked reading an idle open pipe, holding a partial record, idle after some records, idle after a back-pressure episode in which downstream accepted nothing for 1.5 s (thorough 6 s), idle after the first writer left and a second one connected (if the worker serves it); the worker must return within the bound and deliver nothing afterwards. distinct_nontrivial = cells (all are blocking states)",
+		Rule:  "cancellation injected into SyslogIngester.Ingest and AuditLogIngester.Ingest on real FIFOs in each blocking state: waiting for a writer to open the pipe, blocked reading an idle open pipe, holding a partial record, idle after some records, idle after a back-pressure episode in which downstream accepted nothing for 1.5 s (thorough 6 s), idle after the first writer left and a second one connected (if the worker serves it), parked inside the callback because downstream (correlator / record channel) never takes the hand-off; the worker must return within the bound and deliver nothing afterwards. distinct_nontrivial = cells (all are blocking states)",
 		Extra: map[string]any{"bound_s": bound.Seconds(), "latency_s": lat}}
 	cov.Assumptions = []string{"real time: the bound (5 s) is three orders of magnitude above observed latencies; the OS scheduler is not controlled"}
 	return run.Finish(cov)
